@@ -41,6 +41,81 @@ def literal_zone(lits):
     return any(l.strip() in ("Z", "GMT", "UTC", "UT") or l.endswith(" GMT") or l.endswith("Z") and len(l) <= 2 for l in lits)
 
 
+def _is_utc_const(b, op, at):
+    s2 = flow.backward(b, op, at=at)
+    return any(cst.get("c") == "item" and cst["def"].endswith("UtcOffset::UTC") for cst in s2.consts)
+
+
+def offset_kinds(b, op, at, seen=None, depth=0):
+    """abstract value of an OffsetDateTime-carrying operand: subset of {'Utc', 'Self', 'Any'} joined over every reaching definition.
+    'Self' = read from the field of an existing Timestamp (inductive case).  Wrappers (Option/Result/ControlFlow) are looked through.
+    checked_to_offset(UTC) yields None only when the UTC form leaves the +-9999 year range of the time crate, i.e. for instants outside the
+    years 1..9999 the property quantifies over: the fallback operand of `unwrap_or` after it is not followed."""
+    seen = set() if seen is None else seen
+    if not isinstance(op, dict) or "p" not in op or depth > 40:
+        return {"Any"}
+    p = op["p"]
+    l = p["l"]
+    for e in flow.norm_proj(p["proj"]):
+        if e[0] == "f" and len(e) > 3 and e[3] == TS + "Timestamp":
+            return {"Self"}
+    key = (l, at)
+    if key in seen:
+        return set()
+    seen.add(key)
+    out = set()
+    if 1 <= l <= b.argc:
+        ty = b.locals[l]
+        out.add("Utc" if "std::time::SystemTime" in ty and "OffsetDateTime" not in ty else "Any")
+    for df in b.defs().get(l, []):
+        if at is not None and not flow.can_reach(b, df["bi"], at):
+            continue
+        dbi = df["bi"]
+        if df["kind"] == "assign":
+            rv = df["rv"]
+            if rv["k"] in ("use", "ref", "cast", "rawptr", "agg") and rv["ops"]:
+                for o in rv["ops"]:
+                    if isinstance(o, dict) and "p" in o:
+                        out |= offset_kinds(b, o, dbi, seen, depth + 1)
+            elif rv["k"] in ("discr", "len", "nullop"):
+                pass
+            else:
+                out.add("Any")
+        elif df["kind"] == "call":
+            t = df["term"]
+            d = callee_def(t)
+            sh = short(d)
+            args = t["args"]
+            if sh in UTC_SOURCES and "time::" in d:
+                out.add("Utc")
+            elif sh in ("to_offset", "checked_to_offset") and "time::" in d and len(args) == 2:
+                out |= {"Utc"} if _is_utc_const(b, args[1], dbi) else {"Any"}
+            elif d.endswith("convert::From::from") or d.endswith("convert::Into::into"):
+                a0 = flow.op_place(args[0]) if args else None
+                ty = b.locals[a0["l"]] if a0 is not None else ""
+                if "std::time::SystemTime" in ty:
+                    out.add("Utc")      # time: From<SystemTime> for OffsetDateTime yields a UTC value
+                else:
+                    out |= offset_kinds(b, args[0], dbi, seen, depth + 1)
+            elif sh in ("unwrap_or", "unwrap_or_else") and d.startswith("core::option::Option") and args:
+                sl = flow.backward(b, args[0], at=dbi)
+                k0 = offset_kinds(b, args[0], dbi, seen, depth + 1)
+                chk0 = any(short(callee_def(x)) == "checked_to_offset" for _, x, _ in sl.calls)
+                out |= k0
+                if not (chk0 and k0 <= {"Utc"}):
+                    for a2 in args[1:]:
+                        out |= offset_kinds(b, a2, dbi, seen, depth + 1)
+            elif flow.is_transparent(t) and args:
+                out |= offset_kinds(b, args[0], dbi, seen, depth + 1)
+            elif d.endswith("ops::arith::Add::add") or d.endswith("ops::arith::Sub::sub"):
+                out |= offset_kinds(b, args[0], dbi, seen, depth + 1)
+            else:
+                out.add("Any")
+        else:
+            out.add("Any")      # handed out by &mut
+    return out
+
+
 def rule_r1(chk, db):
     fmt = db.body(TS + "Timestamp::format")
     if fmt is None:
@@ -55,20 +130,10 @@ def rule_r1(chk, db):
         for bi, si, st in b.stmts():
             rv = st["rv"]
             if rv["k"] == "agg" and rv.get("adt") == TS + "Timestamp":
-                sl = flow.backward(b, rv["ops"][0], at=bi)
-                names = {short(callee_def(t)) for _, t, _ in sl.calls}
-                defs = {callee_def(t) for _, t, _ in sl.calls}
-                kind = "Any"
-                if names & set(UTC_SOURCES) and not any(d.endswith("OffsetDateTime::parse") for d in defs):
-                    kind = "Utc"
-                if "to_offset" in names:
-                    kind = "Utc"
-                if any(d.endswith("convert::From::from") for d in defs) and any("SystemTime" in b.locals[l] for l in sl.locals):
-                    kind = "Utc"
-                if sl.params and not sl.calls:
-                    kind = "Any"      # received through a public constructor
+                ks = offset_kinds(b, rv["ops"][0], bi)
+                kind = "Any" if "Any" in ks or not ks else ("Utc" if "Utc" in ks else "Self")
                 writers.append((b, bi, kind))
-    join = "Utc" if writers and all(k == "Utc" for _, _, k in writers) else "Any"
+    join = "Utc" if any(k == "Utc" for _, _, k in writers) and all(k in ("Utc", "Self") for _, _, k in writers) else "Any"
     chk.stats["timestamp_writers"] = ["%s:%s" % (b.loc(bi), k) for b, bi, k in writers]
     for bi, t in sinks:
         desc = t["args"][-1]
@@ -78,12 +143,7 @@ def rule_r1(chk, db):
         if not literal_zone(lits):
             chk.ok("R1", "sink:%s" % dname, fmt.loc(bi), {"literal_zone": False}, nontrivial=False)
             continue
-        rsl = flow.backward(fmt, t["args"][0], at=bi)
-        norm = [(cb, x) for cb, x, _ in rsl.calls if short(callee_def(x)) == "to_offset"]
-        utc = False
-        for cb, x in norm:
-            s2 = flow.backward(fmt, x["args"][1], at=cb)
-            utc = any(cst.get("c") == "item" and cst["def"].endswith("UtcOffset::UTC") for cst in s2.consts)
+        utc = offset_kinds(fmt, t["args"][0], bi) <= {"Utc"}
         chk.verdict(utc or join == "Utc", "R1", "sink:%s" % dname, fmt.loc(bi),
                     "a timestamp that may carry a non-UTC offset (writers of Timestamp.0: %s) is printed with the format %s, which ends in a literal UTC designator, "
                     "without being converted to UTC first: `2020-01-01T08:00:00+08:00` is rendered as `2020-01-01T08:00:00Z`" % (sorted({k for _, _, k in writers}), dname))
